@@ -473,6 +473,9 @@ func (e *Env) setup() {
 		e.ctx, e.cancel = mc.WithCancel(base)
 	case "deadline":
 		e.ctx, e.cancel = mc.WithTimeout(base, time.Hour)
+		if !e.native {
+			mc.MarkTimerFree(e.ctx) // the caller's deadline may pass anywhere at no preemption cost
+		}
 	}
 }
 
